@@ -132,7 +132,10 @@ func genAV1TU(t *core.Tape, mtu int) ([]av1OBU, []byte) {
 		}
 		o.res1 = t.Chance(1, 8)
 		var size int
-		switch t.Weighted(3, 1, 1, 2, 2, 1, 1) {
+		switch t.Weighted(3, 1, 1, 2, 2, 1, 1, 1) {
+		case 7:
+			// the transmitted element (header, extension, payload) is a whole number of full packets, give or take two
+			size = (1+t.Intn(4))*(mtu-1) - 4 + t.Intn(5)
 		case 0:
 			size = 1 + t.Intn(12)
 		case 1:
